@@ -54,6 +54,10 @@ pub struct Case {
     /// these (different) numbers of seconds (only where the driver may create one)
     #[serde(default)]
     pub timens: Option<(u32, u32)>,
+    /// the probe is started without a vDSO in its auxiliary vector (as under a kernel booted with vdso=0): the
+    /// clock functions have to take their system-call path (only where the driver may trace the probe)
+    #[serde(default)]
+    pub novdso: bool,
 }
 
 /// Names the environment is built from: several are proper prefixes of others, some are not UTF-8,
@@ -234,14 +238,14 @@ pub fn startup_case(thorough: bool) -> impl Strategy<Value = Case> {
     );
     let envp = prop_oneof![1 => prop::collection::vec(entry(), 0..=0), 6 => prop::collection::vec(entry(), 1..=8), 3 => prop::collection::vec(entry(), 9..=40)];
     let ids = prop_oneof![1 => Just(None), 2 => (1000u32..70_000, 1000u32..70_000).prop_map(Some), 1 => (any::<u32>(), any::<u32>()).prop_map(|(u, g)| Some((u.clamp(1, u32::MAX - 2), g.clamp(1, u32::MAX - 2))))];
-    (argv, envp, prop::collection::vec(key_spec(), 1..=8), builds(thorough, 3), ids, prop::option::weighted(0.5, 100u32..60_000), prop::option::weighted(0.35, (1u32..2_000_000, 1u32..2_000_000))).prop_map(|(argv, envp, specs, builds, ids, egid, timens)| {
+    (argv, envp, prop::collection::vec(key_spec(), 1..=8), builds(thorough, 3), ids, prop::option::weighted(0.5, 100u32..60_000), prop::option::weighted(0.35, (1u32..2_000_000, 1u32..2_000_000)), prop::bool::weighted(0.15)).prop_map(|(argv, envp, specs, builds, ids, egid, timens, novdso)| {
         let keys = specs.iter().map(|s| BStr(resolve_key(s, &envp))).collect();
         let egid = match (ids, egid) {
             (Some((_, g)), Some(e)) => Some(if e == g { e + 1 } else { e }),
             _ => None,
         };
         let timens = timens.map(|(m, b)| if m == b { (m, b + 977) } else { (m, b) });
-        Case { argv, envp: envp.into_iter().map(BStr).collect(), keys, builds, ids, egid, timens }
+        Case { argv, envp: envp.into_iter().map(BStr).collect(), keys, builds, ids, egid, timens, novdso }
     })
 }
 
@@ -256,6 +260,6 @@ pub fn lookup_case(thorough: bool) -> impl Strategy<Value = Case> {
             }
         }
         let keys = specs.iter().map(|s| BStr(resolve_key(s, &envp))).collect();
-        Case { argv: vec![Arg::B(BStr(b"probe-env".to_vec()))], envp: envp.into_iter().map(BStr).collect(), keys, builds, ids: None, egid: None, timens: None }
+        Case { argv: vec![Arg::B(BStr(b"probe-env".to_vec()))], envp: envp.into_iter().map(BStr).collect(), keys, builds, ids: None, egid: None, timens: None, novdso: false }
     })
 }
